@@ -850,10 +850,6 @@ theorem naive_newSpec (cnf : Cnf) (numVars : Nat) : NewSpec (naiveSpec cnf) numV
 
 /-! ## the unconditional theorem for the reference compiler -/
 
-theorem cnfNumVars_bound_aux (c : Clause) : ∀ (n0 : Nat), n0 ≤ c.foldl (fun m l => max m (l.var + 1)) n0 ∧
-    ∀ l ∈ c, l.var < c.foldl (fun m l => max m (l.var + 1)) n0 :=
-  fun n0 => ⟨foldl_bound_ge c n0, foldl_bound_mem c n0⟩
-
 theorem cnfNumVars_ge (cs : Cnf) : ∀ (n0 : Nat),
     n0 ≤ cs.foldl (fun m c => c.foldl (fun m l => max m (l.var + 1)) m) n0 := by
   induction cs with
